@@ -21,8 +21,9 @@ where
         }
         buf.reserve(to - from);
 
-        let reader = self.base.region().create_reader();
+        // Lock order: pages before the reader's mmap guard.
         let pages = self.pages.read();
+        let reader = self.base.region().create_reader();
         ReadWriteCompressedVec::<I, T, S>::read_stored_pages_into(&reader, &pages, from, to, buf);
     }
 
